@@ -72,6 +72,13 @@ CHECKS = {
   text="Server: 12 injected command suffixes x all splits x InsecureAuth on/off: no backend call or response (plaintext or inside TLS) may carry a marker, bytes after the tagged OK must be TLS records, credentials policy on plaintext. Client: 12 injected response suffixes x all splits x OK/PREAUTH/BYE greetings: no callback, capability, state change or command completion from injected bytes; PREAUTH and BYE refused. Positive controls without injection must complete the handshake and carry LOGIN/NOOP over TLS.",
   design_ref="DESIGN.md §3 C17",
   note="Dropping the early plaintext is accepted as well as feeding it to the handshake. Trusts crypto/tls."),
+
+ "C10": dict(
+  category="fault_enumeration",
+  technique="runtime fault injection with virtual time: the instrumented in-process connection injects EOF / read error / stall / write error at every byte offset of live client<->server exchanges; per-call return tracking, goroutine census of package imapclient after Close, and a delivered-prefix oracle for 'success implies fully received completion'; race detector on",
+  text="14 scenarios covering every client command (12 against the real server + in-memory backend, 2 against a scripted server with unusual but valid transcripts) x every server->client offset x {EOF, reset, stall} and every client->server offset x {write error}. Liveness is decided in logical time: after the fault all I/O completes at once, read deadlines expire at once, a deadline-less stall is ended by Client.Close once the client is parked.",
+  design_ref="DESIGN.md §3 C10",
+  note="Backstops of 25-30 s are orders of magnitude above the millisecond run time; the completion oracle is skipped for the STARTTLS scenario (ciphertext)."),
 }
 
 NOT_YET = "check not built yet in this round (planned in DESIGN.md §3; runtime monitoring applies)"
